@@ -113,7 +113,7 @@ def key_class(key):
 def trace_cfg(retained, l2pp):
     return ("CONSTANTS\n  InitLen = 1\n  MaxLen = 1000\n  MaxTag = 1000\n  MaxReorgs = 1000\n  MaxL1 = 1000\n"
             "  MaxRestarts = 1000\n  MaxViews = 1000\n  Retained = %d\n  Lag = 10\n  L2PerPrune = %d\n"
-            "  AssumeFinality = FALSE\n  AssumeSlowL1 = FALSE\n"
+            "  AssumeFinality = FALSE\n  AssumeSlowL1 = FALSE\n  FixHashChecks = FALSE\n"
             "INIT TraceInit\nNEXT TraceNext\nCONSTRAINT TraceConstraint\nPOSTCONDITION TraceAccepted\nCHECK_DEADLOCK FALSE\n"
             % (retained, l2pp))
 
@@ -199,6 +199,9 @@ def reconcile(ctx, traces, verdict, divs):
     what_of = {}
     for d in divs:
         what_of.setdefault(d["key"], d["what"])
+        m = re.search(r"\[scenario ([^\]]+)\]$", d["what"])
+        if m:
+            what_of.setdefault((d["key"], m.group(1)), d["what"])
     agree = 0
     for t in traces:
         v = verdict[t["tr"]]
@@ -214,7 +217,7 @@ def reconcile(ctx, traces, verdict, divs):
                        "silent steps — feed sends, pruner receives, floor raise — explains it)" % (t["name"], v["at"], json.dumps(ev)),
                        t.get("unsafe", False))
             for k in mon:
-                report(ctx, t, k, what_of.get(k, k), t.get("unsafe", False))
+                report(ctx, t, k, what_of.get((k, t["name"]), what_of.get(k, k)), t.get("unsafe", False))
             agree += 1
             continue
         want = {key_class(k) for k in mon} - {"other"}
@@ -223,7 +226,7 @@ def reconcile(ctx, traces, verdict, divs):
             raise vlib.Broken("verdict sources disagree on trace %s: monitors %s, TLC accepted with flags %s"
                               % (t["name"], sorted(mon), sorted(have)))
         for k in mon:
-            report(ctx, t, k, what_of.get(k, k), t.get("unsafe", False))
+            report(ctx, t, k, what_of.get((k, t["name"]), what_of.get(k, k)), t.get("unsafe", False))
         agree += 1
     return agree
 
@@ -290,7 +293,8 @@ def selftest(ctx, traces, verdict, lines):
             if v["accepted"] and not v["flags"]:
                 raise vlib.Broken("selftest: a corrupted trace of %s was accepted" % t["name"])
             done += 1
-    if done == 0:
+    if done == 0 and not ctx.violations:
+        # (with violations reported every trace may be dirty: the verdict comes from them, not from the selftest)
         raise vlib.Broken("selftest: no clean trace with pruning to corrupt")
     ctx.coverage["selftest_rejections"] = done
 
@@ -356,6 +360,8 @@ def run(ctx):
         vlib.require_actions_covered(r, ignore=("PruneError",))       # unreachable under the assumptions (P2_NoPruneError)
         for w in ("W_PruneWhileBehind", "W_RevertAfterPrune", "W_L1AheadOfHead"):
             expect_invariant(ctx, "Node_witness_%s.cfg" % w[2:].lower(), (w,), "vacuity witness " + w)
+        expect_invariant(ctx, "Node_hashfix_stuck.cfg", ("P2_NeverStuck",),
+                         "without AssumeSlowL1, candidate repair FixHashChecks: the catch-up path still gets stuck")
         expect_temporal(ctx, "Node_floorlag.cfg", "P5_FloorCatchesUp",
                         "strong P5 (floor always catches up) fails: lossy keep-first feeds, l1 = head blind spot")
         ctx.tlc_check("node", "MCNode.tla", "Node_live4.cfg", timeout=1800,
